@@ -40,6 +40,8 @@ def cases(tier, seed):
         nports = r.choice([1, 2, 2, 3, 4, 8] if tier == "thorough" else [1, 2, 2, 3, 4])
         if r.random() < 0.15:
             mem["nranks"] = 2
+            if mem.get("kind") == "synthetic" and mem["bankbits"] >= 4:
+                mem["bankbits"] = 3      # 32 bank machines simulate at < 10 cycles/s
         cls = CLASSES[k % len(CLASSES)]
         nops = r.randint(60, 110) if tier == "quick" else r.randint(80, 200)
         nops = max(20, nops // max(1, nports // 2))
